@@ -49,6 +49,8 @@ def subst(sym, mapping):
         return sym
     if sym and sym[0] == "sym":
         return mapping.get((sym[1], sym[2]), sym)
+    if sym and sym[0] == "ploc":
+        return mapping.get(("ploc", sym[1]), sym)
     if sym and sym[0] == "mul":
         out = None
         for x in sym[1]:
@@ -86,7 +88,7 @@ def show(sym):
         return "%s(%s)" % (sym[1], ", ".join(show(x) for x in sym[2:]))
     if h == "get":
         return "%s.%s" % (show(sym[2]), sym[1])
-    if h == "loc":
+    if h in ("loc", "ploc"):
         return sym[1]
     if h == "bin":
         return "(%s %s %s)" % (show(sym[2]), sym[1], show(sym[3]))
@@ -160,6 +162,10 @@ class MetaEngine:
                 o0[oid] = {f: ("sym", f, oid) for f in FIELDS}
         init = {"a": a0, "o": o0, "v": {}}
         counter = [0]
+        # non-metadata parameters (parms_id, scale, ...): symbolic leaves that a caller's summary application replaces
+        # by the value of the actual argument
+        plain_params = {p["pat"]["lid"] for p in it["params"]
+                        if p["pat"].get("k") == "PBind" and not is_meta_ty(p.get("ty", ""))}
 
         def join(x, y):
             a = {l: x["a"][l] for l in x["a"] if y["a"].get(l) == x["a"][l]}
@@ -196,6 +202,8 @@ class MetaEngine:
                     oid = st["a"].get(e["lid"])
                     if oid:
                         return ("obj", oid)
+                    if e["lid"] in plain_params:
+                        return ("ploc", e["name"])
                     return ("loc", e["name"])
                 return ("const", e.get("def", "?").rsplit("::", 1)[-1])
             if k == "Cast":
@@ -272,6 +280,8 @@ class MetaEngine:
                         flds = fields_of_expr(a, st)
                     for fl in FIELDS:
                         mapping[(fl, "P%d" % j)] = flds[fl]
+                elif j < len(cit["params"]) and cit["params"][j]["pat"].get("k") == "PBind":
+                    mapping[("ploc", cit["params"][j]["pat"]["name"])] = ev(a, st)
             return mapping
 
         def set_field(st, oid, field, val):
